@@ -307,6 +307,22 @@ impl TransportFn<()> for Torn {
 
 pub fn torn() {
     let kind = [Kind::Blk, Kind::Socket, Kind::Console, Kind::NetRaw, Kind::P9][choose(5) as usize];
+    torn_kind(kind);
+}
+
+/// Block capacity under a device that changes its configuration during construction (C14:
+/// "capacity ... equal the device's configuration").
+pub fn torn_blk() {
+    torn_kind(Kind::Blk);
+}
+
+/// 9P mount tag under a device that changes its configuration during construction (C20:
+/// "returned values ... mount tag equal what the device reported").
+pub fn torn_9p() {
+    torn_kind(Kind::P9);
+}
+
+fn torn_kind(kind: Kind) {
     let tk = [TKind::Model, TKind::ModelPciLike, TKind::MmioModern, TKind::SomeMmio, TKind::Pci, TKind::SomePci][choose(6) as usize];
     let feats = F_VERSION_1 | F_INDIRECT * choose(2) | F_EVENT_IDX * choose(2) | kind.implemented_device_bits() & !(1 << 5);
     zoo::setup_device(kind, feats, version_config(kind, 0));
